@@ -302,7 +302,7 @@ MM_CASES = [("qint8", None, "qint8", None), ("qint8", None, "qint8", 0), ("qint8
             # the second operand is the transpose of a (p, m) quantized tensor - the torch.matmul(x, w.t()) idiom
             ("qint8", None, "qint8.t", None), ("qint8", None, "qint8.t", 0),
             # the first operand is the transpose of a quantized (m, n) tensor (a row vector obtained from a column vector when n == 1)
-            ("qint8.t", None, "qint8", None), ("qint8.t", None, "qint8.t", None)]
+            ("qint8.t", None, "qint8", None), ("qint8.t", None, "qint8.t", None), ("qint8.t", 0, "qint8", -1)]
 
 
 _SCALE_LEMMAS = set()
@@ -362,6 +362,8 @@ def aten_mm(run):
     equals the product of the dequantized operands: result[.., i, j] == sum_k deq(a)[.., i, k] * deq(b)[.., k, j]."""
     for op in ("mm", "bmm"):
         for qa, axis_a, qb, axis_b in MM_CASES:
+            if op == "bmm" and qa.endswith(".t") and axis_a is not None:
+                continue   # (per-axis first operand through a transpose: 2-D only - a batched per-axis tensor has no first/last-axis transpose)
             inst = {"entry": f"aten.{op}", "a": qa, "axis_a": axis_a, "b": qb, "axis_b": axis_b}
             run.count_instance(**{"mm_op": op, "mm_a": qa, "mm_axis_a": axis_a, "mm_b": qb, "mm_axis_b": axis_b})
             E = OC.engine(run)
@@ -451,7 +453,11 @@ def aten_mm(run):
                     f = z3.Function(nm + "_s", *([z3.IntSort()] * rank), R)
                     pos = axis % rank
                     args = [z3.IntVal(0)] * rank
-                    args[pos] = {0: ids[0], rank - 2: ids[-2], rank - 1: ids[-1]}.get(pos, z3.IntVal(0)) if rowcol(pos, rank) else z3.IntVal(0)
+                    val = {0: ids[0], rank - 2: ids[-2], rank - 1: ids[-1]}.get(pos, z3.IntVal(0)) if rowcol(pos, rank) else z3.IntVal(0)
+                    if q.endswith(".t") and pos in (rank - 2, rank - 1):
+                        # the scale symbol belongs to the SOURCE of the transpose: its axis is the other one of the last two dimensions
+                        pos = rank - 1 if pos == rank - 2 else rank - 2
+                    args[pos] = val
                     return f(*args)
                 # a scale along the contracted dimension cannot be factored out: use position 0 there, the relation is then not provable (as it must)
                 ca = scale_at("A", qa, axis_a, lambda pos, rank: pos != rank - 1)
